@@ -302,14 +302,23 @@ def r5(ctx, retsets):
         raw = lname[:-4]
         attempts = [i for i in lf.all_insts() if i.op == "call" and (i.callee == raw or (i.callee is None and i.d.get("fptr") and
                     vf.expr(lf, i["fptr"])[0] == "load" and vf.last_field(vf.expr(lf, i["fptr"])[1]) == fpf))]
+        # an attempt made before the loop is entered has the whole timeout left: it may be handed the timeout itself
+        first = [i for i in attempts if not any(i.block.id in body for body in lf.loops().values())]
+        early_ok = all(vf.expr(lf, i.args[3]) == ("arg", 3) for i in first)
+        attempts = [i for i in attempts if i not in first]
         if len(attempts) != 1:
             raise AnalysisBroken("%s: expected one transfer attempt in the loop, found %d" % (lname, len(attempts)))
         a = attempts[0]
+        if not early_ok:
+            ctx.violation("C17.R5", "%s:remaining-time-per-attempt" % lname, first[0].loc(),
+                          "an attempt before the loop is given %s, not the timeout" % vf.show(vf.expr(lf, first[0].args[3])), key="C17.R5:%s:remaining" % lname)
+            continue
         bodies = [body for h, body in lf.loops().items() if a.block.id in body]
         te = vf.expr(lf, a.args[3])
         clocks = lf.calls("lrtr_get_monotonic_time")
         inside = [k for k in clocks if bodies and k.block.id in min(bodies, key=len) and lf.dom(k, a)]
-        before = [k for k in clocks if not (bodies and k.block.id in min(bodies, key=len)) and lf.dom(k, a)]
+        # (the reading the deadline is formed from is taken before any attempt, the early one included)
+        before = [k for k in clocks if not (bodies and k.block.id in min(bodies, key=len)) and lf.dom(k, a) and all(lf.dom(k, f) for f in first)]
         uses_now = any(vf.mentions(te, lambda x, k=k: x == ("load", vf.expr(lf, k.args[0]))) for k in inside)
         uses_end = any(vf.mentions(te, lambda x, k=k: x == ("load", vf.expr(lf, k.args[0]))) for k in before)
         end_has_timeout = any(i.op == "store" and any(vf.expr(lf, i["ptr"]) == vf.expr(lf, k.args[0]) for k in before) and
